@@ -477,6 +477,19 @@ class ProcessContinuation(Event):
         """Advance the generator to its next yield and schedule the continuation."""
         from happysimulator.core.sim_future import SimFuture
 
+        target = self.target
+        if getattr(target, "_crashed", False):
+            # A crashed or paused entity executes nothing, so its in-flight
+            # process must not advance.  Park the continuation on the entity;
+            # the fault that brings the entity back (CrashNode restart /
+            # PauseNode resume) re-schedules it at the restart time.
+            parked = getattr(target, "_parked_continuations", None)
+            if parked is None:
+                parked = []
+                target._parked_continuations = parked
+            parked.append(self)
+            return []
+
         tracing_on = _event_tracing_enabled
         if tracing_on:
             self.trace("process.resume.start")
